@@ -77,7 +77,8 @@ fn sink_plan(profile: u8) -> SinkPlan {
 fn gen_cfg(rng: &mut Rng, family: &str) -> Cfg {
     let (n_pubs, n_subs) = match family {
         // registration bursts: dozens of mostly idle peers queue up between two polls
-        "burst" => (rng.range(1, 70) as usize, rng.below(70) as usize),
+        // (one burst run in eight has a fan-out of 130–200 subscribers)
+        "burst" => (rng.range(1, 70) as usize, if rng.below(8) == 0 { rng.range(130, 200) as usize } else { rng.below(70) as usize }),
         // one or two publishers with thousands of items available at once (a single poll relays a long burst)
         "firehose" => (rng.range(1, 2) as usize, rng.range(1, 3) as usize),
         "c09" => (rng.below(4) as usize, rng.below(4) as usize),
